@@ -5,6 +5,7 @@ from mirsmt import symex
 from . import refs as R
 from .c01 import cyc_year
 from .c07 import TIME_FIELDS
+from .c05 import datetime_round
 
 RANGE_KIND = 2   # ErrorKind::Range
 DT_MAX = R.NS_MAX + R.NS_DAY     # |epoch ns| of a date-time must be strictly below this
@@ -110,6 +111,10 @@ def epoch_ns_limits(io):
 
 def jobs(tier, seed):
     out = []
+    # rounding a date-time across a range boundary must fail with a RangeError (C05's RoundISODateTime job, which
+    # decides 'Ok iff the rounded value is within the limits' for every representable receiver)
+    for (u, i) in ((6, 1), (7, 1), (5, 30), (1, 500)):
+        out.append(("datetime_round[unit=%d,inc=%d]" % (u, i), datetime_round, {"unit": u, "inc": i}, {"generics": {"T": "i128"}}))
     # the constructors accept any i32 year: probe well beyond the representable range, in year windows the
     # day-count kernel was designed for (|year| < 1.4e6), and the whole i32 range separately (see C03)
     out.append(("datetime_limits[y-300000..300000]", datetime_limits, {"ylo": -300000, "yhi": 300000}, None))
